@@ -27,15 +27,16 @@ const (
 	keyLaterLost = "multi-commit-entry:later-commit-never-delivered"
 	keySkipped   = "leader-regained:unsent-batch-skipped"
 	keyOverlap   = "order:replayed-batch-overlaps-persisted-batch-after-restart"
+	keyFollower  = "missing:follower-snapshot-without-flush-then-restart"
 )
 
 func run(c *vf.Ctx) {
-	c.Rule("history = one client posts a seeded script of /db/execute?raft_index requests (1-5 statements, 40% with ?transaction; single- and multi-row INSERT/UPDATE/DELETE on a rowid-alias table with UNIQUE and CHECK constraints, a plain rowid table, a table outside the configured filter, auxiliary tables created/dropped by DDL; statements that fail after touching rows (UNIQUE / CHECK midway) or at prepare) at about 30 requests/s to the leader (75%) or a random node of a live in-process 3-node cluster in which every node runs a real cdc.Service (batch size 1-5, batch delay 10-60 ms, HWM interval 100-600 ms, retry forever) posting to a recording endpoint that answers per a seeded plan (76% 200, 12% 500, 6% connection closed, 6% held beyond the transmit timeout; outages of 15-85 requests during which everything fails), while a seeded schedule steps the leader down (also twice during an outage), restarts nodes (leader or follower; close without snapshot, new service instance on the same fifo.db), takes user snapshots with 0-10 trailing logs. Every applied request is replayed on a shadow SQLite (stock driver, raw preupdate/commit hooks) to obtain the row changes, and the commit groups, of its log entry; unknown outcomes are resolved by comparing the strong-read state with shadow states. non-trivial = at least two leaders seen, at least one restart and one snapshot (user or automatic) executed, endpoint retries observed, and at least 5 multi-statement non-transaction entries with more than one non-empty commit; distinct by case number")
+	c.Rule("history = one client posts a seeded script of /db/execute?raft_index requests (1-5 statements, 40% with ?transaction; single- and multi-row INSERT/UPDATE/DELETE on a rowid-alias table with UNIQUE and CHECK constraints, a plain rowid table, a table outside the configured filter, auxiliary tables created/dropped by DDL; statements that fail after touching rows (UNIQUE / CHECK midway) or at prepare) at about 30 requests/s to the leader (75%) or a random node of a live in-process 3-node cluster in which every node runs a real cdc.Service (batch size 1-5, batch delay 10-60 ms, HWM interval 100-600 ms, retry forever) posting to a recording endpoint that answers per a seeded plan (76% 200, 12% 500, 6% connection closed, 6% held beyond the transmit timeout; outages of 15-85 requests during which everything fails), while a seeded schedule steps the leader down (also twice during an outage), restarts nodes (leader or follower; close without snapshot, new service instance on the same fifo.db), takes user snapshots with 0-10 trailing logs. Every applied request is replayed on a shadow SQLite (stock driver, raw preupdate/commit hooks) to obtain the row changes, and the commit groups, of its log entry; unknown outcomes are resolved by comparing the strong-read state with shadow states. In addition 1 (quick) / 4 (thorough) directed histories (batch size 100, batch delay 8 s, no automatic snapshots): endpoint down, a few seeded requests on the leader, a user snapshot on a follower that has applied them while they are still inside its batching window, immediate restart of that follower, leadership moved to it, endpoint back, more requests. non-trivial = at least two leaders seen, at least one restart and one snapshot (user or automatic) executed, endpoint retries observed, and at least 5 multi-statement non-transaction entries with more than one non-empty commit; distinct by case number")
 	c.Assume("ground truth for the row changes of an entry are SQLite's own preupdate/commit hooks on a shadow database fed the same requests in log order; the shadow is validated per request (statement errors, rows affected) and at the end (schema and content equal to a strong read of the cluster), otherwise the history is inconclusive")
 	c.Assume("delivered = payloads the endpoint answered with 200; bodies answered 5xx / dropped / held are not deliveries")
 	c.Assume("never-delivered is decided after the endpoint has been healthy, the leader's FIFO has had nothing to send and no payload has arrived for 10 s (2.5 s when nothing required is missing); no quiet state within 150 s, or dropped_cdc_events > 0, is inconclusive")
 	c.Assume("phantom events of failed statements (C27 phantom-events:failed-statement) are extra events, not missing ones; they are counted, attributed by exact content to the failed statement of the same entry, and not judged here")
-	n := c.N(3, 32)
+	n := nRandom(c) + nDirected(c)
 	tmp := vf.TempDir("c25")
 	defer os.RemoveAll(tmp)
 	outs := make([]histOut, n)
@@ -66,7 +67,7 @@ func run(c *vf.Ctx) {
 			var h histOut
 			b, err := os.ReadFile(outF)
 			if err != nil || json.Unmarshal(b, &h) != nil {
-				h = histOut{Spec: genCase(c, i), SetupErr: fmt.Sprintf("worker exit=%d finished=%v err=%v", code, ok, err)}
+				h = histOut{Spec: caseFor(c, i), SetupErr: fmt.Sprintf("worker exit=%d finished=%v err=%v", code, ok, err)}
 				if lb, e := os.ReadFile(logP); e == nil {
 					keep := filepath.Join(vf.Out, "replays", fmt.Sprintf("C25-%d-case%d-worker.log", c.Seed, i))
 					os.MkdirAll(filepath.Dir(keep), 0755)
@@ -210,6 +211,48 @@ func skippedAfterRegain(h *histOut, idx uint64, ev pev) string {
 			if mn > idx {
 				return fmt.Sprintf("the service of %s (instance %d) posted the batch without success (payload #%d, answered %s), lost leadership (signal #%d) while retrying, and after regaining it resumed with index %d (payload #%d), behind the unsent batch; its later high-water mark made every node prune the batch", r1.Node, r1.Inst, r1.Seq, r1.Mode, lost, mn, r2.Seq)
 			}
+		}
+	}
+	return ""
+}
+
+// lostOnSnapshottedFollower recognises one precise way of losing a change: a
+// node that was not leader took a snapshot covering the entry (so a restart
+// does not apply it again), was restarted afterwards, never posted the entry's
+// index, and later, as leader, posted higher indices - what it had captured
+// for the entry was not in its FIFO when it went down.
+func lostOnSnapshottedFollower(h *histOut, idx uint64) string {
+	for _, sn := range h.Marks {
+		if sn.Kind != "snapshot" || sn.IsLeader || sn.Status != 200 || sn.Applied < idx {
+			continue
+		}
+		var rs *mark
+		for k := range h.Marks {
+			m := &h.Marks[k]
+			if m.Kind == "restart" && m.Node == sn.Node && m.Seq > sn.Seq && (rs == nil || m.Seq < rs.Seq) {
+				rs = m
+			}
+		}
+		if rs == nil {
+			continue
+		}
+		posted, later := false, int64(0)
+		var laterIdx uint64
+		for _, rc := range h.Receipts {
+			if rc.Node != sn.Node || rc.Aborted {
+				continue
+			}
+			for _, m := range rc.Msgs {
+				if m.Index == idx {
+					posted = true
+				}
+				if rc.Seq > rs.Seq && m.Index > idx && later == 0 {
+					later, laterIdx = rc.Seq, m.Index
+				}
+			}
+		}
+		if !posted && later != 0 {
+			return fmt.Sprintf("node %s, not leader, took a snapshot at applied index %d (action #%d), was restarted (action #%d), never posted index %d, and as leader went on with index %d (payload #%d): the changes it had captured for the entry were not in its FIFO when the snapshot allowed the log entry to be skipped at restart", sn.Node, sn.Applied, sn.Seq, rs.Seq, idx, laterIdx, later)
 		}
 	}
 	return ""
@@ -386,6 +429,8 @@ func judge(c *vf.Ctx, i int, h *histOut) {
 				default:
 					if why := skippedAfterRegain(h, e.Index, ev); why != "" {
 						viol(keySkipped, "committed row change never delivered: "+why+": "+describe(e, gi, ev), e)
+					} else if why := lostOnSnapshottedFollower(h, e.Index); why != "" {
+						viol(keyFollower, "committed row change never delivered: "+why+": "+describe(e, gi, ev), map[string]any{"entry": e, "marks": h.Marks})
 					} else {
 						viol("missing:first-commit-of-entry", "committed row change never delivered after the drain: "+describe(e, gi, ev), e)
 					}
@@ -614,7 +659,26 @@ func judge(c *vf.Ctx, i int, h *histOut) {
 	for _, k := range []string{"cdc.service.retries", "cdc.service.fifo_enqueue_ignored", "cdc.service.batcher_write_ignored", "cdc.service.hwm_ignored", "cdc.service.snapshot_sync", "cdc.service.num_events_tx_ok"} {
 		c.Count(strings.ReplaceAll(k, ".", "_"), h.Expvar[k])
 	}
-	if len(h.Leaders) >= 2 && restarts >= 1 && (snaps >= 1 || h.Expvar["store.num_snapshots"] > 0) && h.Expvar["cdc.service.retries"] > 0 && multiCommit >= 5 {
+	if h.Spec.Directed != "" {
+		c.Count("directed_histories", 1)
+		// the scripted situation was reached: a non-leader took the snapshot, and
+		// the restarted instance of that node later delivered as leader
+		reached := false
+		for _, sn := range h.Marks {
+			if sn.Kind != "snapshot" || sn.IsLeader || sn.Status != 200 {
+				continue
+			}
+			for _, rc := range h.Receipts {
+				if rc.Node == sn.Node && rc.Inst >= 2 && rc.Mode == "ok" && rc.Seq > sn.Seq {
+					reached = true
+				}
+			}
+		}
+		if reached && len(h.Leaders) >= 2 {
+			c.Count("directed_histories_situation_reached", 1)
+			c.Nontrivial(fmt.Sprintf("directed-case%d", i))
+		}
+	} else if len(h.Leaders) >= 2 && restarts >= 1 && (snaps >= 1 || h.Expvar["store.num_snapshots"] > 0) && h.Expvar["cdc.service.retries"] > 0 && multiCommit >= 5 {
 		c.Nontrivial(fmt.Sprintf("case%d", i))
 	}
 	if !bad {
